@@ -2,9 +2,18 @@
 (* Exhaustive bounded exploration: every interleaving of handshake acts,    *)
 (* WriteMessage / Flush(k) for every k / ReadMessage in both directions,    *)
 (* and the adversary's moves at piece boundaries.                           *)
+(* Fine = TRUE: the calls are also taken section by section (WStage,        *)
+(* WEncHdr, WEncBody, FlushHdr, FlushBody, RHdrTake, RHdrOpen, RHdrLen,     *)
+(* RBodyTake, RBodyOpen; RHeader / RBody as whole calls), the four halves   *)
+(* of the two Machines interleaved freely - full-duplex use.                *)
+(* CSizes / Wants non-empty: brontide.Conn on top, Conn.Write of CSizes     *)
+(* bytes (chunked above MaxSize), Conn.Read with buffers of Wants bytes.    *)
+(* Hold = TRUE: the caller of the read side drops what it holds at any time *)
+(* (Release); otherwise it keeps every message it was handed.               *)
 EXTENDS Transport
-CONSTANTS MaxMsgs, MaxAdv, Sizes, Vals, WDirs
+CONSTANTS MaxMsgs, MaxAdv, Sizes, Vals, WDirs, Fine, CSizes, Wants, Hold
 
+NSent == nsent["ab"] + nsent["ba"]
 MCNext ==
   \/ \E t \in {"real", "wrong"} : GenActOne(t)
   \/ RecvActOne \/ GenActTwo \/ RecvActTwo \/ GenActThree \/ RecvActThree
@@ -12,11 +21,17 @@ MCNext ==
   \/ nadv < MaxAdv /\ ((\E k \in {"ver", "eph", "badpt", "tag", "ct"} : AlterAct(k)) \/ OldActOne)
   \/ \E m \in {Writer(d) : d \in WDirs} :
        \/ \E size \in Sizes : \E v \in (IF size = LEN THEN Vals ELSE {-1}) :
-            /\ nsent["ab"] + nsent["ba"] < MaxMsgs \/ pend[m] # NoPend
-            /\ Write(m, size, v, "")
-       \/ nsent["ab"] + nsent["ba"] < MaxMsgs /\ Write(m, MaxSize + 1, -1, "")
-       \/ \E k \in 0..(pend[m].hl + pend[m].bl) : Flush(m, k)
-  \/ \E d \in Dirs : Read(d) \/ ReadAfterFailure(d)
+            /\ NSent < MaxMsgs \/ pend[m] # NoPend
+            /\ Write(m, size, v, "") \/ (Fine /\ WStage(m, size, v, ""))
+       \/ NSent < MaxMsgs /\ (Write(m, MaxSize + 1, -1, "") \/ (Fine /\ WStage(m, MaxSize + 1, -1, "")))
+       \/ \E k \in 0..(pend[m].hl + pend[m].bl) : Flush(m, k) \/ (Fine /\ FlushHdr(m, k))
+       \/ Fine /\ (WEncHdr(m) \/ WEncBody(m) \/ WEnc(m) \/ FlushBody(m))
+       \/ \E size \in CSizes : NSent < MaxMsgs /\ CWrite(m, size, <<>>, IF size = LEN THEN 1 ELSE -1)
+  \/ \E d \in Dirs :
+       \/ Read(d) \/ ReadAfterFailure(d)
+       \/ Fine /\ (RHeader(d) \/ RBody(d) \/ RHdrTake(d) \/ RHdrOpen(d) \/ RHdrLen(d) \/ RBodyTake(d) \/ RBodyOpen(d))
+       \/ \E w \in Wants : CRead(d, w)
+       \/ Hold /\ Release(d)
   \/ nadv < MaxAdv /\ \E d \in Dirs : AdvAtPieces(d)
 
 MCSpec == Init /\ [][MCNext]_vars
